@@ -590,6 +590,8 @@ class Ctx:
         self.fires = {}
         self.keep_scope = set()  # A::b combos to leave (none)
         self.defined = set()     # macros defined for conditional compilation
+        self.assign_ctor = {}    # class -> cname of the converting constructor used for 'obj = scalar' (R3d)
+        self.conv_objects = {}   # identifier -> class, for objects whose class has conversion operators (R3c)
         self.ref_returning = set()  # cnames of functions returning a C++ reference (calls are wrapped in (*...))
 
     def fire(self, rule, n=1):
@@ -820,6 +822,16 @@ def rewrite_body(body, ctx, cname):
             if n is not None and toks[n].text == '(' and not prev_is_typeword and prev not in ('.', '->', 'sizeof'):
                 # exclude C-style "(T)(x)" : prev == '(' and token after T is ')' -- not this branch since next is '('
                 e = match_tok(toks, n, '(', ')')
+                inner_sig = [x for x in toks[n + 1:e] if x.kind not in ('ws', 'pp')]
+                if len(inner_sig) == 1 and inner_sig[0].kind == 'id' and inner_sig[0].text in ctx.conv_objects:
+                    # R3c: T(obj) on an object of a class with conversion operators -> Class__to_T(&obj)
+                    cls_ = ctx.conv_objects[inner_sig[0].text]
+                    ctype_ = ctx.tm.map(t.text)[0]
+                    new = [Tok('id', '%s__to_%s' % (cls_, re.sub(r'\W+', '_', ctype_))), Tok('op', '('), Tok('op', '&'), Tok('op', '('), inner_sig[0], Tok('op', ')'), Tok('op', ')')]
+                    toks = toks[:i] + new + toks[e + 1:]
+                    ctx.fire('R3c')
+                    i += len(new)
+                    continue
                 ctype = ctx.tm.map(t.text)[0]
                 new = [Tok('op', '('), Tok('op', '('), Tok('id', ctype), Tok('op', ')')] + toks[n:e + 1] + [Tok('op', ')')]
                 toks = toks[:i] + new + toks[e + 1:]
@@ -827,6 +839,43 @@ def rewrite_body(body, ctx, cname):
                 i += 4
                 continue
         i += 1
+
+    # ---- R3d: 'obj = expr;' on an object of a class with converting constructors -> Class ctor call
+    if ctx.conv_objects and ctx.assign_ctor:
+        i = 0
+        while i < len(toks):
+            t = toks[i]
+            if t.kind == 'id' and t.text in ctx.conv_objects:
+                p = sig(toks, i, -1)
+                n = sig(toks, i, 1)
+                prevt = toks[p].text if p is not None else '{'
+                if n is not None and toks[n].text == '=' and prevt in (';', '{', '}', ')', 'else'):
+                    e = n + 1
+                    depth = 0
+                    while e < len(toks) and not (toks[e].text == ';' and depth == 0):
+                        if toks[e].text in '([{':
+                            depth += 1
+                        elif toks[e].text in ')]}':
+                            depth -= 1
+                        e += 1
+                    rhs = [x for x in toks[n + 1:e] if x.kind not in ('ws', 'pp')]
+                    cls_ = ctx.conv_objects[t.text]
+                    if len(rhs) == 1 and rhs[0].kind == 'id' and rhs[0].text in ctx.conv_objects:
+                        i = e
+                        continue       # object-to-object copy: plain struct assignment
+                    rtxt = untokenize(toks[n + 1:e]).strip()
+                    m_ = re.match(r'^' + re.escape(cls_) + r'\s*\((.*)\)$', rtxt, re.S)
+                    if m_:
+                        rtxt = m_.group(1)
+                    ctor = ctx.assign_ctor.get(cls_)
+                    if not ctor:
+                        raise ExtractError("%s: assignment of a scalar to %s object %s needs assign_ctor" % (cname, cls_, t.text))
+                    new = tokenize('%s(&(%s), %s)' % (ctor, t.text, rtxt))
+                    toks = toks[:i] + new + toks[e:]
+                    ctx.fire('R3d')
+                    i += len(new)
+                    continue
+            i += 1
 
     # ---- R4 foreign method calls  recv.m(args) / recv->m(args)
     if ctx.foreign:
